@@ -40,8 +40,19 @@ def expected_output(cmd):
     out = u''
     lines = cmd.split(u'\n')
     block = None
+    text = None
     for ln in lines:
         w = ln.split()
+        if text is not None:
+            if ln == u'EOT':
+                out += u''.join(t + u'\n' for t in text)
+                text = None
+            else:
+                text.append(ln)
+            continue
+        if block is None and w and w[0] == u'text':
+            text = []
+            continue
         if block is not None:
             if w and w[0] == u'end':
                 for b in block:
@@ -88,6 +99,10 @@ def gen_cmd(rng):
     if r < 0.93:
         inner = [u'out %d %d' % (rng.choice([0, 3, 40]), rng.randrange(1000)) for _ in range(rng.randint(0, 2))]
         return {'cmd': u'\n'.join([u'begin'] + inner), 'incomplete': True}
+    if r < 0.97:
+        # verbatim block (like a here-document / a quoted multi-line string): blank and indented lines matter
+        body = [rng.choice([u'', u'', u'  indented', u'line %d' % rng.randrange(100), u' ']) for _ in range(rng.randint(1, 4))]
+        return {'cmd': u'\n'.join([u'text'] + body + [u'EOT'])}
     return {'cmd': u'out %d %d\n' % (min(n, 50), s)}
 
 
@@ -153,12 +168,14 @@ def run(scn):
                     yield x
                 buf = b''
                 block = None
+                textblock = None
                 while True:
                     while b'\n' not in buf:
                         d = yield ('read', slave, 4096, 'intr')
                         if d is None:
                             # SIGINT: cancel whatever is being entered
                             block = None
+                            textblock = None
                             buf = b''
                             for x in emit(u'\nKeyboardInterrupt\n' + st['ps1']):
                                 yield x
@@ -171,6 +188,22 @@ def run(scn):
                     ln = line.decode('utf-8')
                     lines_seen.append(ln)
                     wds = ln.split()
+                    if textblock is not None:
+                        if ln == u'EOT':
+                            outt = u''.join(t + u'\n' for t in textblock)
+                            textblock = None
+                            for x in emit(outt + st['ps1']):
+                                yield x
+                        else:
+                            textblock.append(ln)
+                            for x in emit(st['ps2']):
+                                yield x
+                        continue
+                    if block is None and wds and wds[0] == u'text':
+                        textblock = []
+                        for x in emit(st['ps2']):
+                            yield x
+                        continue
                     if block is not None:
                         if wds and wds[0] == u'end':
                             outt = u''.join(exec_line(b) for b in block)
